@@ -815,6 +815,8 @@ impl CatalogPersistence {
 
         let mut file = File::create(path)
             .wrap_err_with(|| format!("failed to create catalog file at '{}'", path.display()))?;
+        #[cfg(kahflane_turdb_verif)]
+        crate::verif::file_event("truncated", path);
 
         let mut header = vec![0u8; HEADER_SIZE];
 
@@ -843,12 +845,18 @@ impl CatalogPersistence {
 
         file.write_all(&header)
             .wrap_err("failed to write file header")?;
+        #[cfg(kahflane_turdb_verif)]
+        crate::verif::point("catalog.header_written", &[]);
 
         file.write_all(&catalog_bytes)
             .wrap_err("failed to write catalog data")?;
+        #[cfg(kahflane_turdb_verif)]
+        crate::verif::point("catalog.body_written", &[]);
 
         file.sync_all()
             .wrap_err("failed to sync catalog file to disk")?;
+        #[cfg(kahflane_turdb_verif)]
+        crate::verif::file_event("fsync", path);
 
         Ok(())
     }
